@@ -50,7 +50,7 @@ type Expr struct {
 //   rec     back reference inside a cyclic definition (loop φ)
 //   opaque  anything else
 
-const maxDepth = 14
+const maxDepth = 40
 
 // X returns the expression of v.
 func (p *Prog) X(v ssa.Value) *Expr {
@@ -105,18 +105,18 @@ func (p *Prog) expr(v ssa.Value, onPath map[ssa.Value]bool, depth int) *Expr {
 		return &Expr{Op: "new", Name: p.shorten(types.TypeString(v.Type(), nil)), Val: v}
 	case *ssa.FieldAddr:
 		fld := fieldOf(v.X.Type(), v.Field)
-		return &Expr{Op: "field", Name: fld.Name(), Args: []*Expr{p.baseOf(v.X, onPath, depth)}, Val: v, Obj: fld}
+		return &Expr{Op: "field", Name: fld.Name(), Args: []*Expr{p.baseOf(v.X, v, onPath, depth)}, Val: v, Obj: fld}
 	case *ssa.Field:
 		fld := fieldOf(v.X.Type(), v.Field)
 		return &Expr{Op: "field", Name: fld.Name(), Args: []*Expr{sub(v.X)}, Val: v, Obj: fld}
 	case *ssa.IndexAddr:
-		return &Expr{Op: "index", Args: []*Expr{p.baseOf(v.X, onPath, depth), sub(v.Index)}, Val: v}
+		return &Expr{Op: "index", Args: []*Expr{p.baseOf(v.X, v, onPath, depth), sub(v.Index)}, Val: v}
 	case *ssa.Index:
 		return &Expr{Op: "index", Args: []*Expr{sub(v.X), sub(v.Index)}, Val: v}
 	case *ssa.Lookup:
 		return &Expr{Op: "lookup", Args: []*Expr{sub(v.X), sub(v.Index)}, Val: v}
 	case *ssa.Slice:
-		return &Expr{Op: "slice", Args: []*Expr{p.baseOf(v.X, onPath, depth), sub(v.Low), sub(v.High), sub(v.Max)}, Val: v}
+		return &Expr{Op: "slice", Args: []*Expr{p.baseOf(v.X, v, onPath, depth), sub(v.Low), sub(v.High), sub(v.Max)}, Val: v}
 	case *ssa.BinOp:
 		return &Expr{Op: "bin", Name: v.Op.String(), Args: []*Expr{sub(v.X), sub(v.Y)}, Val: v}
 	case *ssa.UnOp:
@@ -164,7 +164,10 @@ func (p *Prog) expr(v ssa.Value, onPath map[ssa.Value]bool, depth int) *Expr {
 // baseOf renders the base of an address computation: a local cell is
 // replaced by what it holds (so &x.f and x.f look alike), anything else is
 // rendered as is.
-func (p *Prog) baseOf(x ssa.Value, onPath map[ssa.Value]bool, depth int) *Expr {
+func (p *Prog) baseOf(x ssa.Value, at ssa.Instruction, onPath map[ssa.Value]bool, depth int) *Expr {
+	if root := p.cellRoot(x); root != nil && at != nil && p.cell(root).whole {
+		return p.cellValue(root, at, nil, onPath, depth)
+	}
 	return p.expr(x, onPath, depth+1)
 }
 
@@ -277,6 +280,7 @@ type cellInfo struct {
 	alloc       *ssa.Alloc
 	defs        []cellDef
 	foreignDefs bool // some definition happens outside the owning function
+	whole       bool // the whole value is stored at least once (a variable, not just an object built field by field)
 	escapes     bool // address used in a way we do not track
 }
 
@@ -293,6 +297,7 @@ func (p *Prog) cell(a *ssa.Alloc) *cellInfo {
 				switch in := in.(type) {
 				case *ssa.Store:
 					if p.cellRoot(in.Addr) == a {
+						ci.whole = true
 						ci.defs = append(ci.defs, cellDef{store: in, fn: fn})
 						if fn != owner {
 							ci.foreignDefs = true
@@ -353,7 +358,12 @@ func (p *Prog) load(u *ssa.UnOp, onPath map[ssa.Value]bool, depth int) *Expr {
 		}
 		return &Expr{Op: "deref", Args: []*Expr{inner}, Val: u}
 	}
-	defs, zero := p.reachingDefs(u, root)
+	return p.cellValue(root, u, u, onPath, depth)
+}
+
+// cellValue renders what local cell root may hold when instruction at runs.
+func (p *Prog) cellValue(root *ssa.Alloc, at ssa.Instruction, val ssa.Value, onPath map[ssa.Value]bool, depth int) *Expr {
+	defs, zero := p.reachingDefs(at, root)
 	var alts []*Expr
 	for _, d := range defs {
 		if d.store != nil {
@@ -371,13 +381,13 @@ func (p *Prog) load(u *ssa.UnOp, onPath map[ssa.Value]bool, depth int) *Expr {
 	if len(alts) == 1 {
 		return alts[0]
 	}
-	return &Expr{Op: "cell", Args: alts, Val: u}
+	return &Expr{Op: "cell", Args: alts, Val: val}
 }
 
 // reachingDefs computes which definitions of cell root may be observed by
 // the load. It is flow-sensitive when every definition lives in the owning
 // function; otherwise every definition (and the zero value) may reach.
-func (p *Prog) reachingDefs(load *ssa.UnOp, root *ssa.Alloc) (defs []cellDef, zero bool) {
+func (p *Prog) reachingDefs(load ssa.Instruction, root *ssa.Alloc) (defs []cellDef, zero bool) {
 	ci := p.cell(root)
 	owner := root.Parent()
 	if ci.foreignDefs {
